@@ -375,6 +375,11 @@ def verify(t: Target, seed=0, prefixes=None, budget=None, budget_s=None):
             env = t.setup(I)  # dict name -> value ; special keys: __args__ (list) optional
             args = env.pop('__args__', None)
             kwargs = env.pop('__kwargs__', {})
+            clos = env.pop('__closure__', None)
+            if clos is not None:
+                # the target is a nested function: the names it takes from the enclosing function's scope
+                target_func = Func(node, SX.Frame(dict(clos), None, globs, t.qualname + '<enclosing scope>'), globs, name=t.qualname)
+                eng.target_func = target_func
             if args is None:
                 a = node.args
                 names = [x.arg for x in a.posonlyargs + a.args]
